@@ -172,6 +172,7 @@ def boundary_terms():
     ts.append(("u", 0, bytes(16), 0, 0, b"m", 2**31 - 1, 2**31 - 1, p, []))
     ts.append(("u", 0, bytes(16), 0, 0, b"m", 2**31, 5, p, []))                      # recorded C01 finding (old_index >= 2^31)
     ts.append(("u", 255, bytes([255] * 16), 2**32 - 1, 2, b"m", 255, 256, p, [("i", 1), ("t", [("a", b"x")])]))
+    ts += sibling_maps()
     return ts
 
 
@@ -319,3 +320,39 @@ def strip_loc(t):
     if k == "u":
         return t[:8] + (t[8][:4] + (None,), [strip_loc(x) for x in t[9]])
     return t
+
+
+def sibling_groups():
+    """groups of terms that differ in exactly one fine field: a comparison that forgets the field merges them as map keys"""
+    P = lambda node=b"n@h", i=1, s=2, c=3: ("p", node, i, s, c, None)  # noqa
+    O = lambda node=b"n@h", i=1, c=3: ("o", node, i, c, None)  # noqa
+    R = lambda node=b"n@h", c=3, ids=(1, 2, 3): ("r", node, c, list(ids), None)  # noqa
+    U = lambda ar=1, uniq=bytes(16), idx=1, m=b"m", oi=1, ou=1, p=None, fr=(): ("u", ar, uniq, idx, len(fr), m, oi, ou, (p or P())[1:], list(fr))  # noqa
+    ints = lambda *ns: [int_ast(n) for n in ns]  # noqa
+    return [
+        ints(-5000000000, -5000000001, -6000000000), ints(-2**63, -2**63 + 1, -2**63 + 2), ints(2**40, 2**40 + 1), ints(-2**31 - 1, -2**31 - 2),
+        ints(2**63 - 1, 2**63 - 2), ints(2**56, 2**56 + 1, 2**62), ints(2**64 + 1, 2**64 + 2), ints(-(2**64) - 1, -(2**64) - 2), ints(2**70, 2**70 + 256),
+        ints(-(2**70), -(2**70) - 256), ints(255, 256), ints(-1, -2),
+        [P(), P(i=2), P(s=3), P(c=4), P(node=b"m@h")], [P(s=0), P(s=1)], [P(c=0), P(c=2**32 - 1)],
+        [O(), O(i=2), O(c=4), O(i=2**32), O(i=2**32 + 1)], [R(), R(c=4), R(ids=(1, 2, 4)), R(ids=(1, 2)), R(ids=(2, 2, 3))],
+        [U(), U(p=P(c=4)), U(p=P(s=3)), U(ou=2), U(oi=2), U(idx=2), U(ar=2), U(uniq=bytes(15) + b"\x01"), U(m=b"n")],
+        [U(fr=[("i", 1)]), U(fr=[("i", 2)])],
+        [("e", b"m", b"f", 1), ("e", b"m", b"f", 2), ("e", b"m", b"g", 1), ("e", b"n", b"f", 1)],
+        [("a", b"aa"), ("a", b"ab"), ("a", b"a")], [("b", b"\x00"), ("b", b"\x01"), ("b", b"\x00\x00")], [("B", b"\x80", 1), ("B", b"\x80", 2), ("B", b"\xc0", 2)],
+        [("f", fbits(1.0)), ("f", fbits(1.0) + 1)], [("f", fbits(-1.0)), ("f", fbits(-1.0) + 1)],
+        [("t", [P()]), ("t", [P(s=3)])], [("l", [O()]), ("l", [O(c=4)])], [("t", [int_ast(-5000000000)]), ("t", [int_ast(-5000000001)])],
+    ]
+
+
+def sibling_maps():
+    """maps whose keys are siblings, in both insertion orders, plus a tuple holding the siblings side by side"""
+    out = []
+    for g in sibling_groups():
+        kvs = [(k, ("i", i)) for i, k in enumerate(g)]
+        out.append(("m", kvs))
+        out.append(("m", list(reversed(kvs))))
+        for a in range(len(g)):
+            for b in range(a + 1, len(g)):
+                out.append(("m", [(g[a], ("a", b"x")), (g[b], ("a", b"y"))]))
+        out.append(("t", list(g)))
+    return out
